@@ -796,7 +796,7 @@ class Prop:
             return Case(desc=desc, coq_input=coq_in, impl_obs=[0], oracle_fail="refusal: definition without '__root__' accepted",
                         nontrivial=False, key=H.digest(desc))
         obs = [type(tree) is TypedTree, H.sx_opt(tree.name if desc.get("name") is not None else None),
-               [obs_node(c) for c in (tree._root._children or [])], rk is not None]
+               [obs_node(c) for c in (tree._root._children or [])], rk is not None, tree._forward_attrs is True]
         fail = oracle(desc, tree)
         if fail is None and tree._forward_attrs is not True:
             fail = "class: forward_attrs not set"
